@@ -94,6 +94,11 @@ func variants(thorough bool) []variant {
 			return construct("metrics", map[string]interface{}{"kvStoreName_actual": "gtreap", "path": ""})
 		}},
 	}
+	// moss over a lower-level store that takes the persisted data in chunks of two operations
+	vs = append(vs, variant{Name: "moss+goleveldb/chunk2", Disk: true, Open: func(dir string) (store.KVStore, error) {
+		return construct("moss", map[string]interface{}{"mossLowerLevelStoreName": "goleveldb", "mossLowerLevelMaxBatchSize": 2.0,
+			"mossLowerLevelStoreConfig": map[string]interface{}{"path": filepath.Join(dir, "ldb"), "create_if_missing": true}})
+	}})
 	if thorough {
 		vs = append(vs,
 			variant{Name: "metrics/boltdb", Disk: true, Open: func(dir string) (store.KVStore, error) {
